@@ -133,8 +133,13 @@ P = {
        "every operation; sighash/verify leave every existing object unchanged; setattr/delattr on immutables "
        "rejected; refinement to the pure value-semantics spec for the base catalogue (refines_value_spec — it can "
        "only detect aliasing/caching/mutability errors: serialisation and identifiers are shared terms whose content "
-       "is C01/C02). UNPROVED (kept at full strength in Props/C09.lean): refines_alias_spec for the by-reference "
-       "catalogue — tied by T2, every history is run on the heap model AND the aliasing spec inside the driver. T2: "
+       "is C01/C02). Immutable constructors freeze what they are given (ImmClosedX without exceptions: an immutable "
+       "object refers only to immutable objects; witness-list / stack edits and CTxIn over a mutable outpoint are in "
+       "the catalogue) — the library did not until defect D23 was found by this check and FIXED (3757b45). UNPROVED "
+       "(kept at full strength in Props/C09.lean): refines_alias_spec for the by-reference catalogue "
+       "(refines_alias_spec_partial: histories without by-reference ops) and rawSigHash_eq_sighash_model (heap "
+       "digest = Model.Sighash on the value; _partial: the early exits) — both tied by T2: every history is run on "
+       "the heap model AND the aliasing spec, every sighash step through both digest functions, inside the driver. T2: "
        "random histories (all histories ≤ 3 ops exhaustively in the thorough tier) on real objects, every container "
        "kind, default-witness construction; serialisation/ids/hash/== of every live object compared after every step.",
   note=TB + "Objects are created through the operation catalogue; witness-v0 sighash is modelled by its heap footprint.",
